@@ -111,6 +111,9 @@ func genBatch(rt *rapid.T) *Batch {
 	if patient {
 		b.GlobalMs, b.TryMs = 20000, 0
 	}
+	// one batch in four runs the deadline filter: requests that name a deadline are ended by TerminateStream from the
+	// filter's own goroutine - early, around the upstream's answer / the timers, or after they have finished
+	b.Deadline = b.Proto != "tcp" && rapid.IntRange(0, 3).Draw(rt, "deadlineFilter") == 0
 	tokSeq := 0
 	tok := func() string { tokSeq++; return fmt.Sprintf("k%d", tokSeq) }
 	genReq := func(label string) ReqPlan {
@@ -125,6 +128,10 @@ func genBatch(rt *rapid.T) *Batch {
 		}
 		if !patient && rapid.IntRange(0, 7).Draw(rt, label+"ownTry") == 0 {
 			rp.TryMs = rapid.IntRange(20, 60).Draw(rt, label+"tryTimeoutMs")
+		}
+		if b.Deadline && rapid.IntRange(0, 2).Draw(rt, label+"hasDeadline") > 0 {
+			rp.TermUs = rapid.OneOf(rapid.IntRange(1, 3000), rapid.IntRange(3000, 60000), rapid.IntRange(60000, 160000)).Draw(rt, label+"deadlineUs")
+			rp.TermCode = rapid.SampledFrom([]int{403, 429, 500, 503, 504}).Draw(rt, label+"deadlineCode")
 		}
 		return rp
 	}
@@ -631,6 +638,13 @@ func runBatch(t ev.TB, part string, b *Batch) (classes []string, nontrivial bool
 	}
 	if len(r.poolShutdownMs) > 0 {
 		cls["pool-shutdown"] = true
+	}
+	if b.Deadline {
+		cls["deadline-filter"] = true
+		if atomic.SwapInt64(&deadlineHits, 0) > 0 { // shards are separate processes and batches run one at a time
+			cls["deadline-filter:terminated-a-request"] = true
+			nontrivial = true
+		}
 	}
 	if b.Proto == "tcp" && b.Thr[thrConn] != 0 && allOK(b.Hosts) {
 		for i := range b.Conns {
